@@ -416,10 +416,10 @@ def classify(site, cls, case, states, params, got, fd):
             bad = np.abs(g - f) > 1e-3 * (1 + np.abs(f))
             if bad[fp.index(wp)] and int(bad.sum()) == 1:
                 return "%s:%s:wrong-value:component-of-the-time-windowed-parameter" % (site, cls)
-    return _classify(site, cls, case, states, params, got, fd) + (":time-dependent-model" if td else "")
+    return _classify(site, cls, case, states, params, got, fd, order_label=not td) + (":time-dependent-model" if td else "")
 
 
-def _classify(site, cls, case, states, params, got, fd):
+def _classify(site, cls, case, states, params, got, fd, order_label=True):
     s = case["setup"]
     tp, ts, obs = case["target_param"], case["target_state"], s["obs"]
     got = np.asarray(got, float); fd = np.asarray(fd, float)
@@ -428,7 +428,7 @@ def _classify(site, cls, case, states, params, got, fd):
             return "gradient-order:target_param-not-ascending"
         if ts is not None and len(ts) > 1 and LC.order_class(states, ts) == "not-ascending":
             return "gradient-order:target_state-not-ascending"
-    if len(obs) > 1 and LC.order_class(states, obs) == "not-ascending":
+    if order_label and len(obs) > 1 and LC.order_class(states, obs) == "not-ascending":
         return "gradient:observed-states-not-ascending"
     return "%s:%s:wrong-value:%d-state%s%s%s" % (site, cls, len(obs), "s" if len(obs) > 1 else "",
                                                 ":target_param" if tp is not None else "", ":weights=" + case["weights"][0] if case["weights"][0] != "none" else "")
